@@ -434,10 +434,118 @@ func c08Scenario(r *RNG, k int) (kinds []string) {
 	return []string{"longline"}
 }
 
+// c08GenPlain: a text of the wanted kind without an include directive of its own making (the tree adds the real ones).
+func c08GenPlain(r *RNG, kind string) string {
+	for k := 0; k < 20; k++ {
+		if t := c08GenFile(r, kind); !strings.Contains(t, "include") {
+			return t
+		}
+	}
+	switch kind {
+	case "formatted":
+		return "2020-01-01 open A:B\n"
+	case "unparseable":
+		return "2020-01-01 open\n"
+	}
+	return c08FallbackUnformatted
+}
+
+// c08Tree: an INCLUDE TREE on disk.  f0.knut is the root; 1-6 further files are each included by one of the files before them
+// (so chains, fans and mixtures of both arise), some from a subdirectory; every file has directives, comments and white space of
+// its own (not yet formatted or formatted; the last file, always a leaf, sometimes does not parse); the include lines stand at the
+// beginning or at the end of the including file, in canonical or sloppy spelling.  Named on the command line: the root, sometimes
+// also one of the included files (then it is reachable twice), sometimes also a file outside the tree.
+func c08Tree(r *RNG) (fnames, texts, kinds []string, named []int) {
+	total := r.Range(1, 6) + 1
+	parent := make([]int, total)
+	dirs := make([]string, total)
+	fnames = make([]string, total)
+	fnames[0], parent[0] = "f0.knut", -1
+	for k := 1; k < total; k++ {
+		parent[k] = r.Intn(k)
+		if r.Chance(1, 3) {
+			parent[k] = k - 1 // deep chains
+		}
+		d := dirs[parent[k]]
+		if r.Chance(1, 3) {
+			d = filepath.Join(d, fmt.Sprintf("d%d", k))
+		}
+		dirs[k] = d
+		fnames[k] = filepath.Join(d, fmt.Sprintf("i%d.knut", k))
+	}
+	bodies := make([]string, total)
+	kinds = make([]string, total)
+	for k := 0; k < total; k++ {
+		kind := Pick(r, []string{"unformatted", "unformatted", "formatted"})
+		if k == total-1 && r.Chance(1, 8) {
+			kind = "unparseable"
+		}
+		bodies[k] = c08GenPlain(r, kind)
+		kinds[k] = "tree-" + kind
+	}
+	assemble := func(k int, body string, blank bool) string {
+		head, tail := "", ""
+		for j := k + 1; j < total; j++ {
+			if parent[j] != k {
+				continue
+			}
+			rel, err := filepath.Rel(filepath.Join("/", dirs[k]), filepath.Join("/", fnames[j]))
+			if err != nil {
+				rel = fnames[j]
+			}
+			line := "include " + "\"" + rel + "\"\n"
+			if r.Chance(1, 2) {
+				line = "include" + Pick(r, []string{"  ", "\t", "   "}) + "\"" + rel + "\"" + Pick(r, []string{"\n", " \n", "\n\n"})
+			}
+			if r.Chance(1, 3) {
+				line = fmt.Sprintf("# file %d of the tree\n", j) + line
+			}
+			if r.Bool() {
+				head += line
+			} else {
+				tail += line
+			}
+		}
+		if tail != "" && !strings.HasSuffix(body, "\n") {
+			body += "\n"
+		}
+		if tail != "" && blank {
+			body += "\n" // after a transaction, an include line would be read as a booking
+		}
+		return head + body + tail
+	}
+	texts = make([]string, total)
+	for k := 0; k < total; k++ {
+		texts[k] = assemble(k, bodies[k], false)
+		if kinds[k] != "tree-unparseable" && implParse(texts[k], c07Path).Outcome != "ok" {
+			texts[k] = assemble(k, bodies[k], true)
+		}
+		if kinds[k] != "tree-unparseable" && implParse(texts[k], c07Path).Outcome != "ok" {
+			texts[k] = assemble(k, c08FallbackUnformatted, true)
+			kinds[k] = "tree-fallback"
+		}
+	}
+	named = []int{0}
+	if r.Chance(1, 3) {
+		named = append(named, r.Range(1, total-1))
+	}
+	if r.Chance(1, 4) {
+		fnames = append(fnames, "s.knut")
+		texts = append(texts, c08GenPlain(r, "unformatted"))
+		kinds = append(kinds, "unformatted")
+		named = append(named, len(fnames)-1)
+	}
+	if len(named) > 1 && r.Bool() {
+		named[0], named[len(named)-1] = named[len(named)-1], named[0]
+	}
+	return fnames, texts, kinds, named
+}
+
 func (x *c08run) c08WriteFiles(dir string, names, texts []string) {
 	os.RemoveAll(dir)
 	os.MkdirAll(dir, 0o755)
 	for i, t := range texts {
+		os.MkdirAll(filepath.Dir(filepath.Join(dir, names[i])), 0o755)
 		if err := os.WriteFile(filepath.Join(dir, names[i]), []byte(t), 0o644); err != nil {
 			fatalf("%v", err)
 		}
@@ -499,21 +607,34 @@ func (x *c08run) flagsFormat() {
 		for _, f := range chosen {
 			allKnown = allKnown && s.known[f.Name]
 		}
-		kinds := c08Scenario(r, i/len(subsets))
-		var texts, fnames []string
-		for k, kind := range kinds {
-			texts = append(texts, c08GenFile(r, kind))
-			fnames = append(fnames, fmt.Sprintf("f%d.knut", k))
+		// scenarios 6 and 7 of every eight: an include tree (every file of it is judged, named on the command line or not)
+		scen := i / len(subsets)
+		var kinds, texts, fnames []string
+		var named []int
+		if scen%8 >= 6 {
+			fnames, texts, kinds, named = c08Tree(r)
+			c.Tag(fmt.Sprintf("%s/tree/files%d/named%d", stream, len(fnames), len(named)))
+		} else {
+			kinds = c08Scenario(r, scen%8)
+			for k, kind := range kinds {
+				texts = append(texts, c08GenFile(r, kind))
+				fnames = append(fnames, fmt.Sprintf("f%d.knut", k))
+				named = append(named, k)
+			}
+		}
+		isNamed := make([]bool, len(fnames))
+		for _, k := range named {
+			isNamed[k] = true
 		}
 		dir := filepath.Join(c.WorkDir, fmt.Sprintf("c08-%s-%d", stream, i))
 		x.c08WriteFiles(dir, fnames, texts)
 		relative := r.Chance(1, 3)
-		paths := make([]string, len(fnames))
-		for k, f := range fnames {
+		paths := make([]string, len(named))
+		for j, k := range named {
 			if relative {
-				paths[k] = f
+				paths[j] = fnames[k]
 			} else {
-				paths[k] = filepath.Join(dir, f)
+				paths[j] = filepath.Join(dir, fnames[k])
 			}
 		}
 		flagArgs := c08FlagArgs(r, chosen)
@@ -526,6 +647,12 @@ func (x *c08run) flagsFormat() {
 		base := func(k int) map[string]any {
 			in := map[string]any{"command": "knut format", "flags": flagArgs, "args": c08ShowArgs(args, dir), "files": kinds, "file": k,
 				"texts_hex": c08HexAll(texts), "exit": status, "stdout": clipTo(stdout, 400), "stderr": clipTo(stderr, 400)}
+			if len(named) != len(fnames) {
+				in["files_on_disk"] = fnames
+				if k >= 0 {
+					in["file_name"], in["file_named_on_command_line"] = fnames[k], isNamed[k]
+				}
+			}
 			if k >= 0 && len(texts[k]) < 600 {
 				in["file_text"] = texts[k]
 			}
@@ -549,13 +676,17 @@ func (x *c08run) flagsFormat() {
 			after := string(b)
 			_, fo, ok := x.c08FileJudge(stream, i, in, filepath.Join(dir, fnames[k]), t, after, label)
 			fmts[k], parsedOK[k] = fo, ok
-			anyRejected = anyRejected || !ok
+			anyRejected = anyRejected || (!ok && isNamed[k])
 			what := "left"
 			if after != t {
 				what = "rewritten"
 			}
 			c.Tag(stream + "/" + kinds[k] + "/" + what)
-			if allKnown && ok && len(flagArgs) == 0 {
+			if allKnown && len(flagArgs) == 0 && !isNamed[k] {
+				// the plain command formats the files it is given, not the files they include
+				c.Compare(stream, i, fmt.Sprintf("plain command leaves a file it was not given untouched (file %d of %d)", k, len(texts)), in, Hex(after), Hex(t))
+			}
+			if allKnown && ok && len(flagArgs) == 0 && isNamed[k] {
 				// the plain command: exactly the in-process formatting (the model is compared on the same bytes in the stream `cli`)
 				c.Compare(stream, i, fmt.Sprintf("plain command vs syntax.FormatFile in process (file %d of %d)", k, len(texts)), in, Hex(after), Hex(fo))
 			}
@@ -572,6 +703,9 @@ func (x *c08run) flagsFormat() {
 			c.Tag("flags/timeout-second-run")
 		} else {
 			for k, t := range texts {
+				if !isNamed[k] {
+					continue // judged above against its own original; the second run does not name it
+				}
 				b, err := os.ReadFile(filepath.Join(dir, fnames[k]))
 				in := base(k)
 				if err != nil {
